@@ -132,8 +132,12 @@ impl MemoryManager {
         #[cfg(all(multiqueue2_verif, multiqueue2_verif_stubmm))]
         return verif_access::stub_remove_token(self, token);
         self.update_token(token);
-        let mut inner = self.mem_manager.lock().unwrap();
-        inner.remove_token(token);
+        {
+            let mut inner = self.mem_manager.lock().unwrap();
+            inner.remove_token(token);
+        }
+        // retire the token only after the manager lock is released: free() and start_free()
+        // take it with try_lock, so under the lock no reclamation cycle could start or finish
         self.free(token as *mut MemToken, 1);
     }
 
